@@ -56,6 +56,10 @@ TUnRoot     == /\ IsEvent("UnRoot")
                /\ IF Ev.a[1] THEN (IF JoinPre THEN UnRootJoinOk(S.root) ELSE Raise) ELSE UnRootPlain
                /\ Out /\ ProjOK
 
+TSetOutGroup == IsEvent("SetOutGroup") /\ SetOutGroup(Ev.a[1]) /\ Out /\ ProjOK
+TRemoveSons  == /\ IsEvent("RemoveSons") /\ RemoveSons(Ev.a[1]) /\ Out /\ ProjOK
+                /\ Ev.r = "ok" => SeqToSet(Ev.sons) = OutN(edges, directed, Ev.a[1])   \* the removed sons are returned
+
 \* isValid(): the answer must be the definition; with a dangling root the call
 \* may raise instead (DESIGN 2h)
 TQValid == /\ IsEvent("QValid")
@@ -121,7 +125,42 @@ TQMrca ==
          /\ x[2] = MrcaT(D, Q)                                                      \* graph level
          /\ x[3] = x[2]                                                             \* observer level
 
-TraceNext == TReset \/ TCreateNode \/ TAddSon \/ TLink \/ TSetFather \/ TRemoveSon \/ TUnlink \/ TDeleteNode
+\* ---- the same questions asked through the observer, with node / edge OBJECTS
+\* (edge-object answers list the objects of the edges that carry one)
+ObjsOf(Es) == {eObj[e] : e \in Es \cap DOMAIN eObj}
+TQObj ==
+  /\ IsEvent("QObj") /\ Rooted /\ QStruct /\ ProjOK
+  /\ \A i \in DOMAIN Ev.rows :
+       LET x == Ev.rows[i]  n == x[1] IN
+         /\ n \in nodes
+         /\ SeqToSet(x[2]) = Sons(edges, n) /\ NoDup(x[2])                         \* getSons(object)
+         /\ SeqToSet(x[3]) = ObjsOf(Branches(edges, n)) /\ NoDup(x[3])             \* getBranches(object)
+         /\ SeqToSet(x[4]) = LeavesUnder(edges, n) /\ NoDup(x[4])                  \* getLeavesUnderNode(object)
+         /\ x[5] = Cardinality(Sons(edges, n)) /\ x[6] = HasFather(edges, n)
+         /\ SeqToSet(x[7]) = Desc(edges, n) /\ NoDup(x[7])                         \* getSubtreeNodes(object)
+         /\ SeqToSet(x[8]) = ObjsOf(SubEdges(edges, n)) /\ NoDup(x[8])             \* getSubtreeEdges(object)
+         /\ SeqToSet(x[9]) = Sons(edges, n)                                        \* sonsIterator(object)
+         /\ SeqToSet(x[10]) = ObjsOf(Branches(edges, n))                           \* branchesIterator(object)
+TQEdgeObj ==
+  /\ IsEvent("QEdgeObj") /\ directed /\ QStruct /\ ProjOK
+  /\ {Ev.rows[i][1] : i \in DOMAIN Ev.rows} = {eObj[e] : e \in DOMAIN eObj}        \* one row per attached object
+  /\ \A i \in DOMAIN Ev.rows :
+       LET x == Ev.rows[i]  e == CHOOSE f \in DOMAIN eObj : eObj[f] = x[1] IN
+         /\ x[2] = edges[e][2] /\ x[3] = edges[e][1]                               \* getSon / getFatherOfEdge
+         /\ <<x[4], x[5]>> = edges[e]                                              \* getNodes(object)
+TQPathObj ==
+  /\ IsEvent("QPathObj") /\ Rooted /\ QStruct /\ ProjOK
+  /\ LET D == DescTable(nodes, edges) IN
+     \A i \in DOMAIN Ev.rows :
+       LET x == Ev.rows[i]  a == x[1]  b == x[2]
+           m == MrcaT(D, {a, b})
+           p == NodePathVia(edges, a, b, m)
+           q == EdgesAlong(edges, p) IN
+         /\ x[3] = p /\ x[4] = Without(p, m)
+         /\ x[5] = [j \in 1..Len(SelectSeq(q, LAMBDA e : e \in DOMAIN eObj)) |->
+                      eObj[SelectSeq(q, LAMBDA e : e \in DOMAIN eObj)[j]]]
+
+TraceNext == TSetOutGroup \/ TRemoveSons \/ TQObj \/ TQEdgeObj \/ TQPathObj \/ TReset \/ TCreateNode \/ TAddSon \/ TLink \/ TSetFather \/ TRemoveSon \/ TUnlink \/ TDeleteNode
              \/ TSetRoot \/ TRootAt \/ TUnRoot \/ TQValid \/ TQRooted
              \/ TQFather \/ TQSons \/ TQLeaves \/ TQSub \/ TQPath \/ TQMrca
 TraceInit == Init /\ directed = TRUE /\ l = 1
